@@ -27,10 +27,16 @@ PROPS = {
         ],
     },
     'C08': {
-        'units': ['unify', 'subst', 'replace'],
+        'units': ['unify', 'subst', 'replace', 'solver_wf', 'solutions_ids', 'compare', 'listops', 'append'],
         'functions': ['substitution_set.rs::get_ground_term', 'substitution_set.rs::is_ground_variable', 'unifiable.rs::Unifiable::replace_variables'],
-        'oracles': {'unifiable.rs::Unifiable::replace_variables': 'c08_fn_answers', '#value': 'c08_resolve', '*': 'c08_cycle'},
+        'oracles': {'unifiable.rs::Unifiable::replace_variables': 'c08_fn_answers', '#value': 'c08_resolve', '*': 'c08_cycle',
+                    '#wf_kept': 'c01_prog', '#wf_inv': 'c01_prog', '#pre_wf': 'c01_prog', '#unify_pre': 'c01_prog', '#pre_bindings': 'c01_prog', '#pre_terms': 'c01_prog', '#pre_ss': 'c01_prog', '#bindings_stay_good': 'c01_prog'},
         'not_covered': [
+            "PROVED since 8.37 (unit solver_wf: overlay contracts contracts/*+acy.vc on the verbatim bodies of next_solution, next_solution_and / _or / _bip, make_solution_node, make_base_node, set_head_node; solve / solve_all in unit solutions_ids): "
+            "'after ANY sequence of successful unifications' as an invariant of the whole search - every goal of the search state holds terms unify accepts, and every set of bindings, in a node or returned as an answer, is well formed and acyclic "
+            "(heap_wf; #wf_kept, #wf_inv); so the preconditions of unify (#pre_terms, #pre_ss), of the ten built-in predicates and of print / print_list (#pre_bindings) are PROVED at the solver's call sites, "
+            "and the built-in predicates return well-formed acyclic bindings (#bindings_stay_good, proved in units compare, listops, append). RELATIVE TO: the stored rules are well formed (what the parsers return: C18 #parsed_wf) and the query is; "
+            "the built-in predicates' preconditions on the SHAPE of their arguments (they panic otherwise) are not the solver's concern",
             "'resolving answers terminates' is proved for replace_variables (unit replace: decreases = size of the term's value under a solution of the bindings, then a rank along variable chains) under the statement's proviso "
             "'needs no occurs check' = the bindings have a finite solution (solvable) and variable chains end (acyclic, the invariant unify is proved to maintain); that unify preserves solvability is not proved (it does not: $X = f($X) succeeds)",
             "'printing' (Display for Unifiable) recurses on the structure of one term only and is not under contract; format_solution (solutions.rs) is not under contract",
@@ -132,7 +138,7 @@ PROPS['C10'] = {
                 '#ids_kept': 'c01_prog', '#ids_inv': 'c01_prog', '#pre_ids': 'c01_prog', '#rewind_is_sound': 'c01_prog', '#fresh_for_the_search': 'c01_prog',
                 '#nothing_kept_from_a_failed_clause': 'c01_prog', '#ids_released_only_after_failed_unification': 'c01_prog'},
     'not_covered': [
-        'PROVED since 8.30: the ids handed out by one use of a clause or query all lie above the value the id counter had when the use began and up to its value when it ended (#ids_fresh, through the whole renaming family; get_rule: `all_fresh`), the counter being modelled as ghost state that next_id moves up by one (T9; Kani harness c10_counter_contract checks next_id itself); unify introduces no id of its own (#no_new_ids). PROVED since 8.36 (unit solver_ids, overlay contracts contracts/*+ids.vc on the verbatim bodies of next_solution, next_solution_and, next_solution_or, next_solution_bip, make_solution_node, make_base_node, set_head_node, over the node heap with the counter as its ghost field `ids`): every variable id referenced from the search state - the goal, the remaining operands and the bindings of every solution node - is at most the counter, before and after every request (ids_ok; #ids_kept, #ids_inv), and so is every answer returned; so the ids get_rule hands out (above the counter as it was: #ids_interval, proved in unit rename) are in use nowhere else in the search, and the rewinding of the counter after a failed head unification gives back ids nothing refers to (#rewind_is_sound). RELATIVE TO, stated as assumptions: unify\'s and get_rule\'s own preconditions at the solver\'s call sites (well-formed terms, acyclic bindings, the predicate exists: the invariants of C08 / C15 are not carried through the search), append, functor, include and exclude introduce no variable of their own (clause #no_new_ids of their stubs in solver_ids, not proved in their units; for the five comparisons and count it IS proved, units compare and listops), and the query was built in the current counter epoch (make_query, #ids_fresh). Answers already handed to the caller are outside the search state',
+        'PROVED since 8.30: the ids handed out by one use of a clause or query all lie above the value the id counter had when the use began and up to its value when it ended (#ids_fresh, through the whole renaming family; get_rule: `all_fresh`), the counter being modelled as ghost state that next_id moves up by one (T9; Kani harness c10_counter_contract checks next_id itself); unify introduces no id of its own (#no_new_ids). PROVED since 8.36 (unit solver_ids, overlay contracts contracts/*+ids.vc on the verbatim bodies of next_solution, next_solution_and, next_solution_or, next_solution_bip, make_solution_node, make_base_node, set_head_node, over the node heap with the counter as its ghost field `ids`): every variable id referenced from the search state - the goal, the remaining operands and the bindings of every solution node - is at most the counter, before and after every request (ids_ok; #ids_kept, #ids_inv), and so is every answer returned; so the ids get_rule hands out (above the counter as it was: #ids_interval, proved in unit rename) are in use nowhere else in the search, and the rewinding of the counter after a failed head unification gives back ids nothing refers to (#rewind_is_sound). RELATIVE TO, stated as assumptions: get_rule\'s own preconditions at the solver\'s call site (the predicate exists, the stored rules are well formed; unify\'s preconditions at its call sites are PROVED in unit solver_wf, 8.37), append, functor, include and exclude introduce no variable of their own (clause #no_new_ids of their stubs in solver_ids, not proved in their units; for the five comparisons and count it IS proved, units compare and listops), and the query was built in the current counter epoch (make_query, #ids_fresh). Answers already handed to the caller are outside the search state',
         "'different names get different ids' and 'no fresh variable is in use elsewhere': ids come from next_id(); its counter contract (successive, non-zero, increasing) is proved by Kani, the composition with the map invariant is not machine-checked",
         'get_rule: which vector the HashMap returns for a &str key is vstd\'s uninterpreted maps_borrowed_key_to_value (no String/str key axiom in vstd); the contract says the result is the renamed index-th rule of that vector',
         'make_query: the static-mut reset in start_query is covered by C22 (Kani); parse_query\'s call establishes the wf_seq precondition (unit parsers: every parser returns well-formed terms)',
@@ -284,7 +290,7 @@ PROPS['C23'] = {
     ],
 }
 PROPS['C04'] = {
-    'units': ['print', 'solver'],
+    'units': ['print', 'solver', 'solver_wf'],
     'functions': ['built_in_print.rs::format_for_print_pred', 'built_in_print.rs::next_solution_print', 'built_in_print_list.rs::next_solution_print_list'],
     'oracles': {'*': 'c04_format', '#trace': 'c04_prog', 'built_in_print_list.rs::next_solution_print_list': 'c04_print_list'},
     'bounded': [('c04_print_list', 'supplementary to the proof, and the source of witnesses: print_list on 13 argument lists under 8 sets of bindings (atoms, numbers, variables bound to atoms / lists / through chains, lists with bound tail variables, nested, '
@@ -299,7 +305,7 @@ PROPS['C04'] = {
         'a print / print_list / nl node writes only on its first request and never again afterwards; print and nl write at most one text per request (#once, #one_output on next_solution_bip; done nodes write nothing: C05)',
         'NOT PROVED, bounded only: "exactly what the reference depth-first search writes ... in execution order" - the output trace of a whole search is a whole-history statement (as C01); c04_prog compares it with a reference interpreter on random programs, labelled bounded',
         'format_slist (the text of one list: 60 lines of string building that follow tail variables through the bindings) is not under contract: its result is an uninterpreted function of the list and the bindings (ASSUMED)',
-        'next_solution_print and next_solution_print_list assume acyclic bindings (C08: the invariant unify keeps) - the solver unit does not carry that invariant to the call site; Display of a term is uninterpreted (disp)',
+        'next_solution_print and next_solution_print_list require acyclic bindings: PROVED at the solver\'s call sites in unit solver_wf (C08, 8.37); Display of a term is uninterpreted (disp)',
         'observation: a cut inside a parenthesised group also stops backtracking into the goals to its right inside the group once control has left the group (documented: "disabled on the cut and all its ancestors"); '
         'the textbook search would retry them, so their output can differ - the trace oracle therefore generates programs without cut',
     ],
